@@ -1337,6 +1337,9 @@ class StorageBackendBase(StorageBackend, ABC):
         super().__init__(storage_type, config=config, read_only=read_only)
         self._data_source = data_source
         self._metadata_source = metadata_source
+        if memory_cache_mb is None:
+            # The explicit parameter overrides the "memory_cache_mb" config option
+            memory_cache_mb = self.config.get("memory_cache_mb", None)
         if memory_cache_mb:
             self._memory_cache = MemoryCache(memory_cache_mb)
         codec_config = config.get("codecConfig", {})
